@@ -15,5 +15,5 @@ for f in sorted(glob.glob(os.path.join(V, "seeded", "*", "meta.json"))):
     need = re.sub(r"\s+", " ", (m.get("needs_to_manifest") or ""))[:200]
     chk = (m.get("check_result") or {}).get(m["property"], {})
     mechs = [re.sub(r"^\s*violated \[([^\]]*)\].*", r"\1", l) for l in chk.get("lines", []) if l.strip().startswith("violated")]
-    verdict = {"caught": "caught", "missed-then-caught": "missed at first, caught after strengthening", "not-property-breaking": "silent (change keeps the property)"}[m["status"]]
+    verdict = {"caught": "caught", "missed-then-caught": "missed at first, caught after strengthening", "not-property-breaking": "silent (change keeps the property)", "neutralised-by-fix": "caught when written; no longer breaks the property since the fix named in the note (check silent, as it should be)"}[m["status"]]
     print(f"| {name} | {summ} | {need} | {verdict}{': ' + ', '.join(mechs[:3]) if mechs else ''} |".replace("\n", " "))
